@@ -12,9 +12,7 @@ TLA_CP = "/opt/veriftools/tla/tla2tools.jar:/opt/veriftools/tla/CommunityModules
 GUARD = "LIBCSD_VERIF"
 VARIANTS = {
     "plain": "-O1 -g -DLIBCSD_VERIF -Wno-error",
-    "asan": "-O1 -g -DLIBCSD_VERIF -Wno-error -fsanitize=address,undefined "
-            "-fno-sanitize=alignment,shift,signed-integer-overflow,vptr "
-            "-fno-omit-frame-pointer -fsanitize-recover=all",
+    "asan": "-O1 -g -DLIBCSD_VERIF -Wno-error -fsanitize=address -fno-omit-frame-pointer -fsanitize-recover=address",
     "tsan": "-O1 -g -DLIBCSD_VERIF -Wno-error -fsanitize=thread",
 }
 SRC_EXT = (".cpp", ".h", ".hpp", ".c", ".cc", ".txt", ".cmake")
@@ -77,7 +75,7 @@ def _run(cmd, **kw):
 def build_lib(variant="plain"):
     """Build libCSD.a + libcds.a from /repo's working tree through the repository's own
     CMakeLists with the variant's flags injected.  Cached by source hash."""
-    h = src_hash()
+    h = hashlib.sha1((src_hash() + VARIANTS[variant]).encode()).hexdigest()[:16]
     bdir = os.path.join(CACHE, "build", "%s-%s" % (variant, h))
     with _Lock("build-" + variant):
         if os.path.exists(os.path.join(bdir, ".done")):
